@@ -389,6 +389,7 @@ def run(chk):
     _armguard_rule(chk, prog)
     _postpair_rule(chk, prog)
     _reap_rule(chk, prog)
+    _staletrim_rule(chk, prog)
 
 
 ACQUIRE = ("socket", "accept", "accept4", "open", "dup", "inotify_init1", "inotify_init", "epoll_create1", "timerfd_create",
@@ -830,3 +831,54 @@ def _reap_rule(chk, prog):
             chk.violation(rule, fn.tu.name, fn.name, "waitpid-options", c.loc,
                           "`%s` does not block (options %s): immediately after kill(SIGKILL) the child has not exited yet, nothing is "
                           "reaped, and the handle is freed - the child remains a zombie until janet exits" % (c.text()[:50], opt.text()))
+
+
+def _staletrim_rule(chk, prog):
+    """A parked channel operation leaves a registration (fiber, generation) in the channel's pending queue, and the
+    channel's mark function keeps that fiber alive.  When the wait is abandoned - cancelled, timed out, a select resolved
+    elsewhere - the registration is only discovered by the opposite operation.  On a channel where that operation never
+    comes (a long-lived channel nobody writes to, polled with timeouts) they would accumulate without bound, so the code
+    that adds a registration has to discard stale ones first."""
+    rule = "C20-STALETRIM"
+    chk.rule(rule, "every site that adds a registration to a channel's pending queue discards stale registrations first (cancelled waits stay bounded)")
+    tu = prog.tus["ev.c"]
+    # helpers that pop a pending queue, compare the entry's generation with its fiber's and wake nobody
+    trimmers = set()
+    for fn in tu.funcs.values():
+        pops = [c for c in fn.calls("janet_q_pop")]
+        cmps = [x for x in fn.nodes if x.k == "bin" and x.op in ("==", "!=") and
+                sum(1 for y in x.walk() if y.k == "mem" and y.field == "sched_id") >= 2]
+        wakes = fn.calls("janet_schedule", "janet_schedule_signal", "janet_cancel", "janet_ev_post_event", "janet_chan_post")
+        if pops and cmps and not wakes:
+            trimmers.add(fn.name)
+    n = 0
+    for fn in tu.funcs.values():
+        regs = [c for c in fn.calls("janet_q_push") if c.args and any(y.k == "mem" and y.field in ("read_pending", "write_pending") for y in c.args[0].walk())]
+        if not regs:
+            continue
+        chk.analysed(fn)
+
+        def qname(c):
+            return [y.field for y in c.args[0].walk() if y.k == "mem" and y.field in ("read_pending", "write_pending")][0]
+
+        def transfer(st, x):
+            if x.k == "call" and x.callee in trimmers and len(x.args) >= 2:
+                q = [y.field for a in x.args for y in a.walk() if y.k == "mem" and y.field in ("read_pending", "write_pending")]
+                if q:
+                    return st | frozenset(q)
+            return st
+        IN, OUT = flow.forward(fn, frozenset(), transfer, lambda a, b: a & b)
+        for x, st in flow.states_at(fn, IN, transfer):
+            if x not in regs:
+                continue
+            n += 1
+            chk.instance(rule)
+            q = qname(x)
+            if q in st:
+                chk.ok(rule, "%s: stale entries of %s are discarded before a new one is added" % (fn.name, q))
+            else:
+                chk.violation(rule, "ev.c", fn.name, "register:%s" % q, x.loc,
+                              "`%s` adds a registration to %s without discarding stale ones first (helpers that do: %s): registrations of "
+                              "waits that were cancelled or timed out stay queued, and keep their fibers alive, until the opposite "
+                              "operation happens - on a quiet channel for ever" % (x.text()[:50], q, sorted(trimmers) or "none"))
+    chk.floor(rule, 2, n)
